@@ -525,6 +525,18 @@ def _outcome(f):
         return "!" + type(ex).__name__
 
 
+# A caller may keep one set object of tag names and hand the very same object to many add_field() calls on
+# different bit fields: the callee must neither alias nor modify it.
+_TAG_SETS = {}
+
+
+def _tagset(tg):
+    key = tuple(tg)
+    if key not in _TAG_SETS:
+        _TAG_SETS[key] = set(tg)
+    return _TAG_SETS[key]
+
+
 def session_bitfield(length, prog):
     root = BitField(length)
     handles = collections.OrderedDict([((), root)])
@@ -542,7 +554,11 @@ def session_bitfield(length, prog):
             for t in tg or []:
                 if t not in tags:
                     tags.append(t)
-            out.append(_outcome(lambda: h.add_field(name, length=ln, start_at=start, tags=tg) or "ok"))
+            tg_arg = _tagset(tg) if (tg and (start is None or ln is not None)) else tg
+            out.append(_outcome(lambda: h.add_field(name, length=ln, start_at=start, tags=tg_arg) or "ok"))
+            for key, st in sorted(_TAG_SETS.items()):
+                if st != set(key):
+                    out.append("caller's tag set %s modified: now %s" % (list(key), sorted(st)))
         elif op[0] == "derive":
             new = dict((k, v) for k, v in op[2])
             try:
@@ -1092,14 +1108,22 @@ FIELD_NAMES = ("a", "b", "c", "d")
 def random_bitfield_program(rng):
     length = rng.choice((4, 8, 16, 32))
     prog, scopes, fields = [], [[]], []
-    for _ in range(rng.randint(2, 7)):
+    if rng.random() < 0.4:
+        # a tagged selector field with a differently tagged field below it (tags propagate upwards)
+        sel, sub = rng.sample(FIELD_NAMES, 2)
+        t_sel, t_sub = rng.sample((["routing"], ["t1"], ["routing", "t1"], ["t2"]), 2)
+        v = rng.choice((0, 1, 2))
+        prog += [["add", [], sel, 2, None, t_sel], ["derive", [], [[sel, v]]], ["add", [[sel, v]], sub, 1, None, t_sub]]
+        scopes.append([[sel, v]])
+        fields += [sel, sub]
+    for _ in range(rng.randint(3, 9)):
         r = rng.random()
-        sc = rng.choice(scopes)
+        sc = rng.choice(scopes[-2:])        # mostly the most recent scopes: hierarchies grow deeper
         if r < 0.5 or not fields:
             name = rng.choice(FIELD_NAMES)
             ln = rng.choice((None, 1, 2, 3, 4))
             st = rng.choice((None, None, 0, 1, 4))
-            tg = rng.choice((None, None, ["routing"], ["routing", "t1"]))
+            tg = rng.choice((None, ["routing"], ["routing"], ["t1"], ["routing", "t1"]))
             prog.append(["add", sc, name, ln, st, tg])
             if name not in fields:
                 fields.append(name)
@@ -1200,8 +1224,29 @@ def make_history(rng, idx, chk):
     """3-8 calls with differing arguments; the last one (a call that needs nothing from earlier calls) and a
     quarter of the others are probes"""
     b = Builder(rng, "h%d" % idx)
-    theme = rng.choice(("route", "route", "place", "place", "tables", "objects", "mixed", "mixed"))
+    theme = rng.choice(("route", "route", "place", "place", "tables", "objects", "mixed", "mixed", "focus", "focus", "focus", "focus"))
     nprob = 0
+    if theme == "focus":
+        # several sessions on objects of ONE kind made one after another, then a probe of the same kind: state
+        # shared between instances (class attributes, aliased arguments, mutable defaults) shows up here
+        add_object_sessions(b, chk)
+        add_object_sessions(b, chk)
+        seeds = [rng.randrange(1, 1000) for _ in range(3)]
+        cands = [g(rng.choice(seeds)) for g in b.safe]
+        kind = rng.choice(sorted(set(c["fn"] for c in cands)))
+        cands = [c for c in cands if c["fn"] == kind]
+        rng.shuffle(cands)
+        steps = cands[:rng.randint(3, 6)]
+        for st in steps:
+            st["safe"] = True
+            st["probe"] = rng.random() < 0.4
+        last = dict(rng.choice(steps)) if rng.random() < 0.5 else dict(cands[-1])
+        last["probe"] = True
+        last["scribble"] = False
+        steps.append(last)
+        b.steps = steps
+        b.theme = theme
+        return b
     if theme in ("route", "mixed"):
         for _ in range(rng.randint(1, 2)):
             add_routing_problem(b, nprob, chk)
